@@ -16,9 +16,10 @@ so the model side is definitional:
   remaining list (networkx breaks ties by node index in the digraph's iteration order; when `nodes` is that
   order the two coincide, but only validity and time-sortedness are claimed);
 * `return_all=True`: the code maps `_get_time_topological_order` over all orders and keeps the results with
-  `len(tmp) > 0`.  `timeOrder` is that helper as written (adjacent pairs only, returns `[]` when a lag
-  decreases) and `timeFilter` is the loop as written, so the empty order is dropped because `[]`
-  doubles as the "not sorted" sentinel (DESIGN.md section 7, D14).
+  `tmp is not None`.  `timeOrder` is that helper as written (adjacent pairs only, returns `None` when a lag
+  decreases, otherwise the list itself) and `timeFilter` is the loop as written: every `some` is kept, so the
+  empty graph yields `[[]]` (this is the code after the repair of D14, DESIGN.md section 7; before it the
+  sentinel was `[]` and the empty order was dropped).
 -/
 import CG.Model.EdgeList
 set_option linter.unusedSectionVars false
@@ -70,12 +71,12 @@ def lagsSorted (key : α → Int) : List α → Bool
   | [_] => true
   | a :: b :: rest => if key a > key b then false else lagsSorted key (b :: rest)
 
-/-- `_get_time_topological_order`: the list itself when time-sorted, otherwise `[]` -/
-def timeOrder (key : α → Int) (o : List α) : List α := if lagsSorted key o then o else []
+/-- `_get_time_topological_order`: the list itself when time-sorted, otherwise `None` -/
+def timeOrder (key : α → Int) (o : List α) : Option (List α) := if lagsSorted key o then some o else none
 
-/-- the `return_all` loop: `tmp = _get_time_topological_order(o); if len(tmp) > 0: append(tmp)` -/
+/-- the `return_all` loop: `tmp = _get_time_topological_order(o); if tmp is not None: append(tmp)` -/
 def timeFilter (key : α → Int) (orders : List (List α)) : List (List α) :=
-  (orders.map (timeOrder key)).filter (fun tmp => decide (tmp.length > 0))
+  orders.filterMap (timeOrder key)
 
 /-- `TimeSeriesCausalGraph.get_topological_order(return_all=True)` (as a set) -/
 def allTimeTopo (E : List (α × α)) (key : α → Int) (nodes : List α) : List (List α) :=
